@@ -108,13 +108,12 @@ theorem ex_wf (g : FutureGroup) (h : exG = some g) : WfG g ∧ GoodKeys g := by
   simp [exG, FutureGroup.with_capacity, FutureGroup.insert, WakerVec.new, StdVec.ReadinessVec.new,
     FutureGroup.len, Slab.insert, Slab.empty, BTree.insert, BTree.empty, BTree.insertSorted, PVec.idx, PVec.set,
     PVec.replicate, PS.PollState.set_pending, StdVec.ReadinessVec.set_ready, BitSet.idx, BitSet.ones, BitSet.set,
-    uadd, FutureGroup.reserve] at h'
+    uadd, FutureGroup.reserve, show wordCeil 2 = 64 from rfl] at h'
   subst h'
   refine ⟨⟨⟨rfl, ?_, ?_, rfl⟩, rfl, rfl, ?_⟩, ⟨by decide, ?_, by decide, rfl⟩⟩
   · intro i hi
     have hi' : 2 ≤ i := hi
-    show decide (i < 2) = false
-    simp; omega
+    exact TieVec.idx_ge hi'
   · rfl
   · intro j hj
     have hj' : 2 ≤ j := hj
@@ -252,13 +251,12 @@ theorem ex_wf (g : StreamGroup) (h : exG = some g) : WfG g ∧ GoodKeys g := by
   simp [exG, StreamGroup.with_capacity, StreamGroup.insert, WakerVec.new, StdVec.ReadinessVec.new,
     StreamGroup.len, Slab.insert, Slab.empty, BTree.insert, BTree.empty, BTree.insertSorted, PVec.idx, PVec.set,
     PVec.replicate, PS.PollState.set_pending, StdVec.ReadinessVec.set_ready, BitSet.idx, BitSet.ones, BitSet.set,
-    uadd, StreamGroup.reserve] at h'
+    uadd, StreamGroup.reserve, show wordCeil 2 = 64 from rfl] at h'
   subst h'
   refine ⟨⟨⟨rfl, ?_, ?_, rfl⟩, rfl, rfl, ?_⟩, ⟨by decide, ?_, by decide, rfl, rfl⟩⟩
   · intro i hi
     have hi' : 2 ≤ i := hi
-    show decide (i < 2) = false
-    simp; omega
+    exact TieVec.idx_ge hi'
   · rfl
   · intro j hj
     have hj' : 2 ≤ j := hj
